@@ -47,6 +47,16 @@ fn lifetime(rng: &mut Rng) -> &'static str {
     *rng.pick(&LTS)
 }
 
+/// the lifetime as it is written: now and then as a raw identifier (`'r#a` is `'a`)
+fn spell_lt(rng: &mut Rng, l: &str, p: &mut Planted) -> String {
+    if l != "'static" && l != "'_" && rng.chance(1, 8) {
+        p.forms.insert("raw-lifetime");
+        format!("'r#{}", &l[1..])
+    } else {
+        l.to_string()
+    }
+}
+
 fn generic_args(rng: &mut Rng, depth: usize, p: &mut Planted) -> String {
     let n = rng.range(1, 3);
     let mut parts = vec![];
@@ -57,7 +67,7 @@ fn generic_args(rng: &mut Rng, depth: usize, p: &mut Planted) -> String {
                 let l = lifetime(rng);
                 p.lt.insert(l.to_string());
                 p.forms.insert("arg-lifetime");
-                parts.push(l.to_string());
+                parts.push(spell_lt(rng, l, p));
             }
             2 => {
                 // const-expression argument: a non-use position
@@ -146,7 +156,7 @@ fn bounds(rng: &mut Rng, depth: usize, p: &mut Planted) -> String {
         let l = lifetime(rng);
         p.lt.insert(l.to_string());
         p.forms.insert("bound-lifetime");
-        parts.push(l.to_string());
+        parts.push(spell_lt(rng, l, p));
     }
     if rng.chance(1, 3) {
         parts.push("?Sized".into());
@@ -181,7 +191,7 @@ fn ty(rng: &mut Rng, depth: usize, p: &mut Planted) -> String {
             if rng.coin() {
                 let l = lifetime(rng);
                 p.lt.insert(l.to_string());
-                s.push_str(l);
+                s.push_str(&spell_lt(rng, l, p));
                 s.push(' ');
             }
             if rng.coin() {
